@@ -65,7 +65,8 @@ pub fn case_strategy(max_instr: usize) -> impl Strategy<Value = Case> {
             prop_oneof![7 => Just(false), 1 => Just(true)],
             proptest::collection::vec(0u32..1200, 0..=4),
         ),
-        any::<u8>(),
+        // bus byte during acknowledge: 0xFF / 0xFE put the IM 2 table entry on a page edge
+        prop_oneof![3 => any::<u8>(), 1 => Just(0xFFu8), 1 => Just(0xFE)],
         any::<u8>(),
         0u8..3,
         any::<bool>(),
